@@ -16,6 +16,8 @@
 //	                            dump of the WHOLE store (every memdb table incl. the index table, and the
 //	                            resource store). checks/C01.py runs this twice as separate OS processes
 //	                            with different environments and compares the outputs byte-wise.
+//	-apply F -repeat K          as above, on K fresh FSMs per history inside the process (differences reported in self_diffs)
+//	-units -seed N -out F       drive the map-ranging handlers one at a time (units.go)
 //	-apply F -full              as above, with the complete dump text after every entry (diagnosis)
 //	-replay F                   F = {"entries":[...]}: apply in this process on two fresh FSMs (the second
 //	                            with planted lock delays) and print both observation lines
@@ -40,6 +42,7 @@ import (
 	"github.com/hashicorp/raft"
 	"google.golang.org/grpc"
 
+	"github.com/hashicorp/consul/agent/consul/discoverychain"
 	"github.com/hashicorp/consul/agent/consul/fsm"
 	"github.com/hashicorp/consul/agent/consul/state"
 	"github.com/hashicorp/consul/agent/structs"
@@ -77,7 +80,7 @@ type Step struct {
 
 // service-virtual-ips rows in the vocabulary of coq/FSM/Model.v
 type VipRow struct {
-	Key    string   `json:"key"` // service name; "peer:<peer>/<name>" for imported services
+	Key    string   `json:"key"` // peer name, NUL, service name
 	IP     string   `json:"ip"`  // the raw allocated IP as a decimal number
 	Manual []string `json:"manual"`
 	C      uint64   `json:"c"`
@@ -96,11 +99,9 @@ type MVip struct {
 	Unassigned []string `json:"unassigned"` // raw order
 }
 
+// the key orders like (peer, name), the order AssignManualServiceVIPs sorts its result in
 func vipKey(p structs.PeeredServiceName) string {
-	if p.Peer != "" {
-		return "peer:" + p.Peer + "/" + p.ServiceName.Name
-	}
-	return p.ServiceName.Name
+	return p.Peer + "\x00" + p.ServiceName.Name
 }
 
 func (r *replica) vipView() VipView {
@@ -126,6 +127,21 @@ type Obs struct {
 	Steps  []Step `json:"steps"`
 	MFinal *Dump  `json:"mfinal,omitempty"` // projected final store (all entries modelled)
 	Panic  string `json:"panic,omitempty"`
+	// -repeat k: the same history applied on k-1 further fresh FSMs in this process; every step at which
+	// one of them differs from the first is listed (empty when they all agree)
+	SelfDiffs []SelfDiff `json:"self_diffs,omitempty"`
+	// non-HTTP discovery chains compiled after config-entry / intention entries, and the largest number of
+	// non-failover targets seen in one (the argument for config_entry.go convertTargetsToTestSpiffeIDs
+	// needs it to be <= 1)
+	L4Chains     int `json:"l4_chains,omitempty"`
+	L4TargetsMax int `json:"l4_targets_max,omitempty"`
+}
+
+type SelfDiff struct {
+	Rep  int   `json:"rep"`
+	Step int   `json:"step"`
+	A    *Step `json:"a"`
+	B    *Step `json:"b"`
 }
 
 // ---------------------------------------------------------------- one replica
@@ -215,7 +231,7 @@ func (r *replica) applyEntry(e *Entry) (out interface{}, panicked string) {
 	return out, ""
 }
 
-func runHistory(h *History, full bool, plant bool) Obs {
+func runOnce(h *History, full bool, plant bool) Obs {
 	r := newReplica()
 	defer r.close()
 	if plant {
@@ -267,12 +283,77 @@ func runHistory(h *History, full bool, plant bool) Obs {
 		}
 		obs.Steps = append(obs.Steps, st)
 		prev = cur
+		if e.Type == int(structs.ConfigEntryRequestType) || e.Type == int(structs.IntentionRequestType) {
+			r.checkL4Chains(&obs)
+		}
 	}
 	if allModel && obs.Panic == "" {
 		d := projectDump(r.store())
 		obs.MFinal = &d
 	}
 	return obs
+}
+
+// runHistory applies the history on `repeat` fresh FSMs (the first as asked, the others alternately with
+// and without planted lock delays) and reports every step at which a later one differs from the first.
+func runHistory(h *History, full bool, plant bool, repeat int) Obs {
+	first := runOnce(h, full, plant)
+	for rep := 1; rep < repeat; rep++ {
+		other := runOnce(h, false, (rep%2 == 1) != plant)
+		n := len(first.Steps)
+		if len(other.Steps) < n {
+			n = len(other.Steps)
+		}
+		for i := 0; i < n; i++ {
+			a, b := first.Steps[i], other.Steps[i]
+			a.Full, b.Full = "", ""
+			ja, _ := json.Marshal(a)
+			jb, _ := json.Marshal(b)
+			if string(ja) != string(jb) {
+				first.SelfDiffs = append(first.SelfDiffs, SelfDiff{Rep: rep, Step: i, A: &a, B: &b})
+			}
+		}
+		if len(first.Steps) != len(other.Steps) {
+			first.SelfDiffs = append(first.SelfDiffs, SelfDiff{Rep: rep, Step: n})
+		}
+	}
+	return first
+}
+
+// checkL4Chains compiles the discovery chain of every service of the universe and, for the chains whose
+// protocol is not HTTP-like, counts the targets that are not failover targets.
+func (r *replica) checkL4Chains(obs *Obs) {
+	st := r.store()
+	for _, svc := range fSvcNames {
+		_, entries, err := st.ReadDiscoveryChainConfigEntries(nil, svc, nil)
+		if err != nil {
+			continue
+		}
+		chain, err := discoverychain.Compile(discoverychain.CompileRequest{ServiceName: svc, EvaluateInNamespace: "default",
+			EvaluateInPartition: "default", EvaluateInDatacenter: "dc1", EvaluateInTrustDomain: "b6fc9da3-03d4-4b5a-9134-c045e9b20152.consul",
+			Entries: entries})
+		if err != nil || chain == nil || structs.IsProtocolHTTPLike(chain.Protocol) {
+			continue
+		}
+		excluded := map[string]bool{}
+		for _, n := range chain.Nodes {
+			if n != nil && n.Resolver != nil && n.Resolver.Failover != nil {
+				for _, t := range n.Resolver.Failover.Targets {
+					excluded[t] = true
+				}
+			}
+		}
+		cnt := 0
+		for tid := range chain.Targets {
+			if !excluded[tid] {
+				cnt++
+			}
+		}
+		obs.L4Chains++
+		if cnt > obs.L4TargetsMax {
+			obs.L4TargetsMax = cnt
+		}
+	}
 }
 
 // ---------------------------------------------------------------- main
@@ -311,6 +392,8 @@ func main() {
 	sleepMs := flag.Int("sleep-ms", 0, "replica mode: sleep before starting (different wall-clock)")
 	name := flag.String("name", "", "replica name (informational)")
 	nowUnix := flag.Int64("now-unix", 0, "generator: the real time (token expiries are placed within the minute after it)")
+	repeat := flag.Int("repeat", 1, "replica mode: apply every history on this many fresh FSMs and report where they differ")
+	unitsMode := flag.Bool("units", false, "unit mode: drive the map-ranging handlers one at a time (see units.go)")
 	typesMode := flag.Bool("types", false, "print registered message types and generator coverage")
 	replay := flag.String("replay", "", "replay file {entries:[...]}")
 	flag.Parse()
@@ -345,6 +428,15 @@ func main() {
 			w.Flush()
 			os.Exit(2)
 		}
+	case *unitsMode:
+		n := *count
+		if n == 0 {
+			n = 40
+			if *tier == "thorough" {
+				n = 400
+			}
+		}
+		units(*seed, n, emit)
 	case *genMode:
 		n := *count
 		if n == 0 {
@@ -360,9 +452,9 @@ func main() {
 		}
 		hs := readHistories(*applyPath)
 		emit(map[string]interface{}{"replica": *name, "gomaxprocs": runtime.GOMAXPROCS(0), "pid": os.Getpid(),
-			"start_unix_nano": time.Now().UnixNano(), "tz": time.Local.String(), "plant_delays": *plant})
+			"start_unix_nano": time.Now().UnixNano(), "tz": time.Local.String(), "plant_delays": *plant, "repeat": *repeat})
 		for i := range hs {
-			emit(runHistory(&hs[i], *full, *plant))
+			emit(runHistory(&hs[i], *full, *plant, *repeat))
 		}
 	case *replay != "":
 		raw, err := os.ReadFile(*replay)
@@ -373,8 +465,8 @@ func main() {
 		if err := json.Unmarshal(raw, &h); err != nil {
 			panic(err)
 		}
-		a := runHistory(&h, false, false)
-		b := runHistory(&h, false, true)
+		a := runHistory(&h, false, false, 1)
+		b := runHistory(&h, false, true, 1)
 		emit(a)
 		emit(b)
 		ja, _ := json.Marshal(a)
